@@ -777,6 +777,31 @@ pub fn run(mode: Mode) -> i32 {
         ctx.note("tag_multi_bit_faults", json!({"pairs_of_tag_bits": 8128, "patterns": 8, "base_lengths": [0, 1, 17]}));
         ctx.absorb("tag-multi-bit", st);
     }
+    // boxes "from" a low-order sender key: the shared secret is all-zero, so anybody can make a
+    // box that authenticates under it. Whether such a box is accepted is not this property's
+    // business; but if an open form refuses it, the caller's buffer must be as it was or zero.
+    if mode == Mode::Leak {
+        let mut st = Stats::new();
+        let k0 = sodium::hsalsa20(&[0u8; 16], &[0u8; 32], None);
+        for (pi, lo) in crate::c05::low_order_table().iter().enumerate() {
+            for len in [0usize, 1, 17, 64] {
+                let mut ks = Keys::make(seed, 3, 1);
+                ks.pk_a = *lo;
+                let m = cval(seed, 2, len);
+                let wire = sodium::secretbox_easy(&m, &ks.n, &k0);
+                for o in open_all().iter().filter(|o| o.1 == Fam::Bx && weight(o.0) == 0 && !uses_pre(o.0)) {
+                    let out = (o.2)(&ks, &wire, SENTINEL);
+                    let _ = take_last_err();
+                    let (oc, f) = judge(mode, prop, o.0, "box", "low-order-sender", false, &out, &m, None);
+                    st.eval(&("low-order-sender", pi, len, o.0), out.v != Verdict::NA, &oc);
+                    if let Some((sig, what)) = f {
+                        st.fail(Fail { check: format!("{}.harness", prop), signature: format!("{}/low-order-sender", sig), what: format!("{} on a {}-byte box made under the all-zero shared secret of the low-order sender key {}: {}", o.0, len, hx(lo), what), case: json!({"mode": modestr, "family": "note", "note": "deterministic: re-run bin/check C17"}) });
+                    }
+                }
+            }
+        }
+        ctx.absorb("low-order-sender-boxes", st);
+    }
     // authentication tags handed over in run-time-sized containers of the wrong length (object
     // API with Vec tags): every proper prefix of the genuine tag
     if mode == Mode::Tamper {
@@ -806,7 +831,7 @@ pub fn run(mode: Mode) -> i32 {
                     let accepted = r == Ok(true);
                     st.eval(&("wrong-length-tag", fam_name(fam), len, tl), true, if accepted { "tamper-accepted" } else { "tamper-rejected" });
                     if accepted {
-                        st.fail(Fail { check: "C02.fault".into(), signature: format!("C02/{}/object-from_parts/accepted/wrong-length-tag", fam_name(fam)), what: format!("{} object built from a {}-byte tag container (message {} bytes) decrypted successfully", fam_name(fam), tl, len), case: json!({"mode": modestr, "family": "note", "note": "deterministic: re-run bin/check C02"}) });
+                        st.fail(Fail { check: format!("{}.harness", prop), signature: format!("C02/{}/object-from_parts/accepted/wrong-length-tag", fam_name(fam)), what: format!("{} object built from a {}-byte tag container (message {} bytes) decrypted successfully", fam_name(fam), tl, len), case: json!({"mode": modestr, "family": "note", "note": "deterministic: re-run bin/check C02"}) });
                     }
                 }
             }
